@@ -352,13 +352,13 @@ static bool lead_create(zckCtx *zck) {
     int phs = 5 + 2*MAX_COMP_SIZE + zck->hash_type.digest_size;
     char *header = zmalloc(phs);
     size_t length = 0;
-    memcpy(header, "\0ZCK1", 5);
-    length += 5;
 
     if (!header) {
 	    zck_log(ZCK_LOG_ERROR, "OOM in %s", __func__);
 	    return false;
     }
+    memcpy(header, "\0ZCK1", 5);
+    length += 5;
     /* Write out full data and header hash type */
     compint_from_size(header + length, zck->hash_type.type, &length);
     /* Write out header length */
